@@ -245,6 +245,11 @@ func (c02) Eval(c *Chooser, env *Env) *Outcome {
 	}
 	o.Digest = DigestOf(r0.Stdout, r0.Exit, r0.Errs, r1.Stdout, r1.Exit, r1.Errs)
 	if what, kinds := firstDiff(cmpOf(r0), cmpOf(r1)); what != "" {
+		if kinds == "callee-defect-attribution" && len(w.Files) == 1 && w.API != APIRepo {
+			// within one file the call site that reports a callee's defect is decided by the job
+			// visiting order, which is the source order: only multi-file runs may differ (known finding)
+			kinds = "callee-defect-attribution:single-file"
+		}
 		o.V = &Violation{Oracle: "same-output", Class: kinds,
 			Message: fmt.Sprintf("the same files, configuration and options produced different results under %s.\n  %s", desc, what),
 			Detail:  map[string]any{"canonical_diagnostics": FormatErrs(r0.Errs), "this_run_diagnostics": FormatErrs(r1.Errs), "canonical_fatal": r0.Fatal, "this_run_fatal": r1.Fatal}}
